@@ -37,7 +37,11 @@ func JSONLDRejects(v any) (rejected bool) {
 	}()
 	proc := ld.NewJsonLdProcessor()
 	opts := ld.NewJsonLdOptions("")
-	_, err := proc.Expand(v, opts)
+	if _, err := proc.Expand(v, opts); err != nil {
+		return true
+	}
+	// rejections that only show when the node map is built (e.g. one @id under two different @index values)
+	_, err := proc.Flatten(v, map[string]any{}, ld.NewJsonLdOptions(""))
 	return err != nil
 }
 
@@ -232,6 +236,11 @@ func JSONLDRejectCandidates(r *rand.Rand, valid []string) []string {
 		`{"@id": "http://x/a", "@reverse": {"@id": "x"}}`, `{"@id": "http://x/a", "@index": 5}`, `{"@id": "http://x/a", "@graph": 5, "@type": 5}`, `{"@id": "http://x/a", "@id ": "y", "@language": 5}`,
 		`{"@graph": [{"@id": 7}]}`, `{"@graph": {"@id": "http://x/a", "@type": 4}}`, `[[{"@id": 5}]]`, `{"@context": {"id": "@id"}, "id": 5}`, `{"@context": {"type": "@type"}, "type": 5, "@id": "http://x/a"}`,
 		`{"@context": {"v": "@value"}, "http://x/p": {"v": {}}}`, `{"@id": "http://x/a", "http://x/p": {"@id": 5}}`, `{"@id": "http://x/a", "http://x/p": [{"@value": null, "@type": 5}]}`,
+		// rejected because of a relation between two entries, and documents on which the processor itself gives up abruptly
+		`{"@context": {}, "@graph": [{"@id": "http://x/a", "@index": "i1"}, {"@id": "http://x/a", "@index": "i2"}]}`, `[{"@id": "http://x/a", "@index": "i1"}, {"@id": "http://x/a", "@index": "i2"}]`,
+		`{"@context": {}, "@graph": [{"@id": "http://x/a", "@type": "http://x/T", "@index": "i1"}, {"@id": "http://x/b", "http://x/p": {"@id": "http://x/a", "@index": "i2"}}]}`,
+		`{"@context": [{"@base": null}, {"@base": "relative/"}], "@id": "a"}`, `{"@context": {"@protected": "yes"}, "@id": "http://x/a"}`, `{"@context": {"t": {"@id": "http://x/t", "@container": [1.1]}}, "t": 1}`,
+		`{"@context": {"t": {"@id": "http://x/t", "@nest": 5}}, "t": 1}`, `{"@context": {"t": {"@id": "http://x/t", "@nest": "@id"}}, "t": 1}`, `{"@context": {"n": "@nest"}, "n": 5, "@id": "http://x/a"}`,
 		`{"@context": {"@version": 2.0}}`, `{"@context": null, "@id": 1}`, `{"@id":"http://x/a","@included": 5}`, `{"@id":"http://x/a","@nest": 5}`,
 	}
 	// JSON type confusion on the JSON-LD keywords of valid documents
